@@ -56,31 +56,47 @@ class NormRule:
             return True
         if isinstance(n, ast.Call) and isinstance(n.func, ast.Attribute) and isinstance(n.func.value, ast.Name) and n.func.value.id in self.M and n.func.attr in ("append", "insert", "pop", "remove", "extend"):
             return True
+        if isinstance(n, ast.Call) and callee_name(n) == self.call:
+            return True  # the normalised model may be given a name of its own
         return False
 
     def opaque(self, stmt):
         return not any(self.relevant(n) for n in ast.walk(stmt))
 
     def init_state(self):
-        return "none"
+        return ("none", frozenset())
 
-    def transfer(self, node, st, ex):
+    def transfer(self, node, state, ex):
+        st, named = state  # named: model name -> local that holds its normalised form, as (model, local) pairs
         a = node.ast
         if a is None or (node.kind == "stmt" and node.note == "opaque"):
-            return st
+            return state
         if node.kind == "stmt" and isinstance(a, (ast.Assign, ast.AugAssign, ast.AnnAssign)):
             tgts = a.targets if isinstance(a, ast.Assign) else [a.target]
             bases = [base_name(x) for t in tgts for x in flat_targets(t)]
+            v = a.value
             if any(b in self.M for b in bases):
-                v = a.value
+                named = frozenset((m, l) for m, l in named if m not in bases)
                 if isinstance(v, ast.Call) and callee_name(v) == self.call and all((b in self.M) for b in bases if b):
-                    return "clean"
+                    return ("clean", named)
                 if node.loop is not None:
-                    return "dirty"
-                return st
+                    return ("dirty", named)
+                return (st, named)
+            # other = normalise(model): the normalised model under a name of its own
+            if isinstance(a, ast.Assign) and len(tgts) == 1 and isinstance(tgts[0], ast.Name) and isinstance(v, ast.Call) and callee_name(v) == self.call and len(v.args) == 1 and isinstance(v.args[0], ast.Name) and v.args[0].id in self.M:
+                return (st, named | {(v.args[0].id, tgts[0].id)})
+            if any(b in {l for _, l in named} for b in bases):
+                named = frozenset((m, l) for m, l in named if l not in bases)
+                return (st, named)
         if node.kind == "return" and st == "dirty":
-            ex.report(("NORMALISE-ON-EXIT", src(a)), f"with {self.flag}=True this return is reached after a sweep write to the model without passing `{self.call}`: the factors are returned un-normalised (scale not moved to the weights/core)", node)
-        return st
+            # every model component handed back is its normalised form
+            covered = {m for m, _ in named}
+            locals_ = {l for _, l in named}
+            reads = names_in(a.value) if a.value is not None else set()
+            object_models = {m for m in self.M if m in covered}
+            if reads & self.M - covered or not (reads & locals_) or not object_models:
+                ex.report(("NORMALISE-ON-EXIT", src(a)), f"with {self.flag}=True this return is reached after a sweep write to the model without passing `{self.call}`: the factors are returned un-normalised (scale not moved to the weights/core)", node)
+        return (st, named)
 
 
 def normalise_on_exit(ctx: Ctx):
